@@ -137,7 +137,7 @@ def line_reader_stage(work, ev, rep, tier, rng):
     if not build.compile_harness(VERIF + "/harness/replay_getline.c", binp, variant="plain"):
         raise RuntimeError("harness build failed")
     CH = {"p": b"a", "s": b" ", "r": b"\r", "n": b"\n"}
-    BUF = 131072
+    BUF = build.src_define("lib/sqfs/src/io/istream.c", "BUFSZ", 131072)      # the file stream's buffer in the tree under test
 
     def one(i):
         c = cases[i]
